@@ -16,8 +16,8 @@ func init() {
 		Rules: func(r *Run) {
 			ruleRender(r)
 			ruleMO(r, 10, "cmd/docker-logql", "groupEntries")
-			ruleGroupEntries(r)      // every returned record reaches the renderer: the engine keeps every entry of a stream
-			ruleDaemonLog(r)         // a long line is a record like any other: frames are read whole, whatever their size
+			ruleGroupEntries(r) // every returned record reaches the renderer: the engine keeps every entry of a stream
+			ruleDaemonLog(r)    // a long line is a record like any other: frames are read whole, whatever their size
 		},
 	})
 }
